@@ -17,7 +17,8 @@ RULE = ("Every rule x content drawn per content-rule kind from classes whose ver
         "non-empty rule; distinct pairs counted.")
 ASSUMPTIONS = [
     "class verdicts come from how the string was constructed (grammar of canonical forms, arithmetic on bounds), not from a parser",
-    "lenient spellings tolerated by Python's parsers, None under a typed rule without nonEmptyContent, and ''/whitespace under emptyContent are unspecified",
+    "lenient spellings tolerated by Python's parsers, None under a typed rule without nonEmptyContent, and ''/whitespace under emptyContent are unspecified; "
+    "under nonEmptyContent every string of length >= 1 (whitespace included) is non-empty",
     "canonical decimals are parsed with float() only to compare the value with the range bounds",
 ]
 
@@ -69,10 +70,8 @@ def verdict(rn, content, has_children, typed_verdict=None):
     if d["nonempty"]:
         if content is None or content == "":
             vs.append("A" if (mixed and has_children) else "R")
-        elif content.strip() == "":
-            vs.append("U")
         else:
-            vs.append("A")
+            vs.append("A")   # any string of length >= 1 is non-empty, whitespace included
     if d["enum"] is not None:
         vs.append("A" if content in d["enum"] else "R")
     if d["typed"]:
